@@ -278,6 +278,10 @@ func parseVpsSpsPpsAnnexbFromRecord(payload []byte) (vps, sps, pps []byte, err e
 			end = len(payload) - i
 		}
 		nal := payload[i+4 : i+end]
+		if len(nal) == 0 {
+			i += end
+			continue
+		}
 		typ := ParseNaluType(nal[0])
 		switch typ {
 		case NaluTypeVps:
